@@ -274,16 +274,16 @@ func (c14Checker) Run(tp *Tapes, opt RunOpt) *Outcome {
 				}
 			}
 			for j := 1; j <= jmax; j++ {
-				for fi, fk := range []uint32{FWriteEIO, FWriteShort, FWriteEIO, FWriteEIO} {
-					// (the third and fourth round hand in a writer that can also be flushed)
-					wkind = []int{0, 0, 1, 2}[fi]
+				for fi, fk := range []uint32{FWriteEIO, FWriteShort, FWriteEIO, FWriteEIO, FWriteEIO} {
+					// (the later rounds hand in a writer that can also be flushed, or that has WriteString)
+					wkind = []int{0, 0, 1, 2, 3}[fi]
 					if wkind != 0 && (ep != EpExecuteWriter || j > 1) {
 						wkind = 0
 						continue
 					}
 					plan := []FaultSpec{{Site: KWrite, Task: -1, Op: -1, Occ: j - 1, Fault: fk, Param: uint32(g.Draw(len(WriterErrors))), Disk: -1}}
 					r, _ := run(ep, cd, plan)
-					what := FaultName(fk) + []string{"", " flushable writer", " flushable writer"}[wkind]
+					what := FaultName(fk) + []string{"", " flushable writer", " flushable writer", " writer with WriteString"}[wkind]
 					wkind = 0
 					if r.Panic != "" {
 						viol("panic", r.Entry+" "+what+" "+panicKey(r.Panic), fmt.Sprintf("%s panicked when the caller's writer failed at call %d: %s", r.Entry, j, firstLine(r.Panic)), nil, r.String())
